@@ -1,8 +1,8 @@
 Require Extraction.
 Require Import ExtrOcamlBasic.
-From Pygls Require Import Base.Assoc Model.Endpoint Spec.EndpointSpec Spec.CancelSpec.
+From Pygls Require Import Base.Assoc Model.Endpoint Model.EndpointX Spec.EndpointSpec Spec.CancelSpec.
 Extraction Language OCaml.
 Extraction "../ocaml/gen/c16_model.ml"
   init step run quiescent enabled drain measure expected exact guard f18_class
   replies count_id sat_atmost sat_exact req_ids id_eqb tie_guard sp_init sp_step
-  natural cancellable named allowedb handler_of.
+  natural cancellable named allowedb handler_of stepx runx.
